@@ -2,7 +2,7 @@
 import ast
 
 from ..core import AnalysisError, call_name, dotted, src, walk_shallow, is_const
-from ..lib import Rules, need, deep_sources, calls_in
+from ..lib import Soft, Rules, need, deep_sources, calls_in
 from . import refcheck
 
 CE = 'pero_ocr.core.confidence_estimation'
@@ -80,10 +80,10 @@ def run(repo, chk):
                        'clip at 0; threshold used in a single order comparison (MONO); the estimators equal their reference forms.')
     chk.note_undecided('value 1 for one-hot rows', 'numerical round-off of exp / logsumexp')
     R = Rules(repo, chk)
-    R.run('PROV', prov, repo, chk)
-    R.run('FACTS', facts, repo, chk)
-    R.run('MONO', mono, repo, chk)
     refcheck.run_all(R, repo, chk, 'RECUR', 'conf_ref.py', WHAT)
+    R.run('PROV', prov, repo, chk)
+    R.run('FACTS', facts, repo, Soft(chk))
+    R.run('MONO', mono, repo, chk)
     chk.expect('PROV', 5)
     chk.expect('FACTS', 3)
     chk.expect('MONO', 2)
